@@ -32,30 +32,31 @@ def run(tier, seed, scale):
     q = tier == "quick"
     t_wedge = 900
     phases = [
-        Phase("rel-mix", "c09", "rel", 110000 if q else 1200000, procs=5 if q else 10, min_nontrivial=10000),
-        Phase("rel-2cpu", "c09", "rel", 12000 if q else 120000, procs=2 if q else 4, cpus=2),
-        Phase("rel-1cpu", "c09", "rel", 5000 if q else 50000, procs=1 if q else 3, cpus=1),
-        Phase("dbg-mix", "c09", "dbg", 30000 if q else 400000, procs=2 if q else 6),
-        Phase("tsan-mix", "c09", "tsan", 2400 if q else 40000, procs=2 if q else 6, timeout=1500),
+        Phase("rel-mix", "c09", "rel", 110000 if q else 500000, procs=5 if q else 8, min_nontrivial=10000),
+        Phase("rel-2cpu", "c09", "rel", 12000 if q else 60000, procs=2 if q else 3, cpus=2),
+        Phase("rel-1cpu", "c09", "rel", 5000 if q else 24000, procs=1 if q else 2, cpus=1),
+        Phase("dbg-mix", "c09", "dbg", 30000 if q else 200000, procs=2 if q else 5),
+        Phase("tsan-mix", "c09", "tsan", 2400 if q else 30000, procs=2 if q else 5, timeout=1500),
         # wedge-able classes: a wedge ends only that process (watchdog verdict); small case counts
-        Phase("rel-R", "c09", "rel", 12 if q else 40, procs=2 if q else 5, args=["--mode", "R"], timeout=t_wedge),
-        Phase("rel-B", "c09", "rel", 60 if q else 300, procs=2 if q else 5, args=["--mode", "B"], timeout=t_wedge),
-        Phase("rel-P", "c09", "rel", 12 if q else 40, procs=2 if q else 5, args=["--mode", "P"], timeout=t_wedge),
+        Phase("rel-R", "c09", "rel", 12 if q else 24, procs=2 if q else 3, args=["--mode", "R"], timeout=t_wedge),
+        Phase("rel-B", "c09", "rel", 60 if q else 180, procs=2 if q else 3, args=["--mode", "B"], timeout=t_wedge),
+        Phase("rel-P", "c09", "rel", 12 if q else 24, procs=2 if q else 3, args=["--mode", "P"], timeout=t_wedge),
         Phase("rel-Pstrict", "c09", "rel", 3000 if q else 40000, procs=1 if q else 2, args=["--mode", "P", "--wedgeable", "0"]),
     ]
     if not q:
         phases += [
-            Phase("asan-mix", "c09", "asan", 60000, procs=4, timeout=1500),
-            Phase("rel-L", "c09", "rel", 600000, procs=4, args=["--mode", "L"]),
-            Phase("rel-S", "c09", "rel", 8000, procs=4, args=["--mode", "S"]),
-            Phase("rel-Q", "c09", "rel", 80000, procs=2, args=["--mode", "Q"]),
-            Phase("rel-U", "c09", "rel", 100000, procs=2, args=["--mode", "U"]),
-            Phase("rel-G", "c09", "rel", 100000, procs=2, args=["--mode", "G"]),
-            Phase("dbg-R", "c09", "dbg", 8, procs=2, args=["--mode", "R"], timeout=t_wedge),
-            Phase("dbg-B", "c09", "dbg", 40, procs=2, args=["--mode", "B"], timeout=t_wedge),
-            Phase("dbg-P", "c09", "dbg", 8, procs=2, args=["--mode", "P"], timeout=t_wedge),
+            Phase("asan-mix", "c09", "asan", 40000, procs=4, timeout=1500),
+            Phase("rel-L", "c09", "rel", 240000, procs=3, args=["--mode", "L"]),
+            Phase("rel-S", "c09", "rel", 4000, procs=3, args=["--mode", "S"]),
+            Phase("rel-Q", "c09", "rel", 40000, procs=2, args=["--mode", "Q"]),
+            Phase("rel-U", "c09", "rel", 50000, procs=2, args=["--mode", "U"]),
+            Phase("rel-G", "c09", "rel", 50000, procs=2, args=["--mode", "G"]),
+            Phase("dbg-R", "c09", "dbg", 4, procs=1, args=["--mode", "R"], timeout=t_wedge),
+            Phase("dbg-B", "c09", "dbg", 20, procs=1, args=["--mode", "B"], timeout=t_wedge),
+            Phase("dbg-P", "c09", "dbg", 4, procs=1, args=["--mode", "P"], timeout=t_wedge),
             Phase("asan-Pstrict", "c09", "asan", 4000, procs=1, args=["--mode", "P", "--wedgeable", "0"], timeout=1500),
             Phase("tsan-Q", "c09", "tsan", 3000, procs=2, args=["--mode", "Q"], timeout=1500),
+            Phase("tsan-G", "c09", "tsan", 12000, procs=2, args=["--mode", "G"], timeout=1500),
         ]
     run_phases(chk, phases, seed, scale)
 
@@ -68,7 +69,7 @@ def run(tier, seed, scale):
         return h.get(str(i), {}).get("h", [0] * 8)[b]
 
     lin_ok = sum(st.get("wgl_ok_" + c, 0) for c in "LUGQP")
-    need = 8000 * min(1.0, scale) if q else 100000
+    need = 8000 * min(1.0, scale) if q else 60000
     chk.require(st.get("wgl_ok_L", 0) >= need, "only %d class-L histories were decided by the linearizability checker (needs %d)" % (st.get("wgl_ok_L", 0), need))
     chk.require(st.get("lin_histories_overlapping", 0) * 4 >= st.get("lin_histories_checked", 1), "fewer than a quarter of the short histories had overlapping operations")
     chk.require(st.get("S_concurrent_ops", 0) >= 20000, "stress histories saw fewer than 20000 overlapping operations")
